@@ -459,3 +459,12 @@ PROPS["C11"]["extras"] = PROPS["C11"]["extras"] + [{"component": "persist", "tim
 PROPS["C11"]["rule"] += " Plus the sequential special case at scale (persist extra, monitor only): 20 000 keys pending in one batch read back at once, values of 128 KiB - 1 MiB put over a pending Remove / Put and read back."
 PROPS["C08"]["rule"] += " The same extra puts values of 128 KiB - 1 MiB over a pending Remove and reads them back, and overwrites slices returned by Get for flushed keys before reading again."
 PROPS["C09"]["rule"] += " The scale round also stores values of 131072, 131073, 200000 and 1048577 bytes and a key of 131081 bytes and compares them in full through RangeKeys after Close and reopen."
+
+# a dependency that fails once: the journal fsync of a size-triggered flush reports an error while the handle stays in use
+for _p in ("C08", "C11"):
+    PROPS[_p]["extras"] = PROPS[_p]["extras"] + [{"component": "crash", "timeout": 600}]
+    PROPS[_p]["rule"] += " extra (crash component, recording storage): a size-triggered flush whose journal fsync fails once; every acknowledged write is still what the reads answer."
+PROPS["C10"]["rule"] += " The crash extra also runs the flush-fails-once scenario (journal fsync error injected once)."
+PROPS["C19"]["extras"] = PROPS["C19"]["extras"] + [{"component": "persist", "timeout": 600}]
+PROPS["C19"]["rule"] += " extra (persist): a constructor call on an existing sharded persister that fails at one shard leaves the data of the other shards alone."
+PROPS["C08"]["rule"] += " The persist extra also uses a CLOSED handle again (DestroyClosed, late Put / Remove) while another persister has writes pending."
